@@ -342,7 +342,86 @@ def contains(module, tn, pred):
 FEATURES = [f for f in ALL_FEATURES if f != "recursion"]
 
 
-def classify(module, typename, syntax, status, stderr=""):
+# ---------------------------------------------------------------------------
+# predicates on the AST of the failing TYPE (references followed)
+
+
+def top_kind(module, tn):
+    return resolve(module, module["asts"][tn])["k"]
+
+
+def nested_sets(module, tn):
+    """SET types strictly inside the type (not the type itself after following references):
+    list of the kind of the construct holding each one ("SEQUENCE", "SET", "CHOICE", "SEQUENCE OF", "SET OF")"""
+    out = []
+    for n, path in walk(module, module["asts"][tn], {tn}):
+        if n["k"] != "SET":
+            continue
+        holders = [p[0] for p in path if p[0] != "REF"]
+        if holders:
+            out.append(holders[-1])
+    return out
+
+
+def is_alias_of(module, name, kind):
+    """the definition is a (chain of) plain reference(s) ending in a type of the given kind"""
+    t = module["asts"].get(name)
+    if t is None or t["k"] != "REF":
+        return False
+    return resolve(module, t)["k"] == kind
+
+
+def uses_alias_of(module, tn, kind):
+    if is_alias_of(module, tn, kind):
+        return True
+    return any(n["k"] == "REF" and is_alias_of(module, n["name"], kind) for n, _ in walk(module, module["asts"][tn], {tn}))
+
+
+def has_node(module, tn, pred):
+    return any(pred(n) for n, _ in walk(module, module["asts"][tn], {tn}))
+
+
+def has_comp(module, tn, pred):
+    """pred(component dict, holder kind) for some component reachable from the type"""
+    for n, _ in walk(module, module["asts"][tn], {tn}):
+        if n["k"] in ("SEQUENCE", "SET", "CHOICE") and any(pred(c, n["k"]) for c in n["comps"]):
+            return True
+    return False
+
+
+NULL_CALL_FRAMES = ("uper_encode", "oer_encode", "SEQUENCE_encode_uper", "SEQUENCE_encode_oer", "CHOICE_encode_uper", "CHOICE_encode_oer",
+                    "SET_OF_encode_uper", "SET_OF_encode_oer", "SET_OF__encode_sorted", "uper_open_type_put", "oer_open_type_put")
+
+
+def classify(module, typename, syntax, status, stderr="", facts=()):
+    """one non-OK outcome of the round-trip battery -> id of the known finding whose predicate it satisfies, or None.
+    status: "NL" (BASIC-XER newline), "ENCFAIL:<errno>", "DEC:<rc>:<consumed>/<produced>", "NEQ", "CMP", "CRASH", "HANG";
+    facts: value-level predicates computed by the driver (harness/moddrv_wide.inc, `wrt`)"""
+    facts = set(facts or ())
     if syntax == "xer" and status == "NL":
         return "C01-xer-trailing-newline"
+    per_oer = syntax in ("cper", "coer")
+    if per_oer and status == "ENCFAIL:ENOENT" and top_kind(module, typename) == "SET":
+        return "C01-set-no-per-oer"
+    if per_oer and status == "CRASH" and nested_sets(module, typename) and "SEGV" in stderr or "null pointer" in stderr:
+        if per_oer and nested_sets(module, typename) and any(f in stderr for f in NULL_CALL_FRAMES):
+            return "C01-set-nested-null-codec"
+    if syntax == "coer" and status == "ENCFAIL:EBADF" and "SEQUENCE" in nested_sets(module, typename):
+        return "C01-set-no-per-oer"
+    if syntax == "cper" and status == "NEQ" and "bits_trail0" in facts:
+        return "C01-uper-bitstring-trailing-zero"
+    if status == "NEQ" and "bool_dfl_raw" in facts and syntax in ("cper", "xer", "cxer"):
+        return "C01-boolean-default-true"
+    if syntax == "cper" and status == "ENCFAIL:EBADF" and "semi_lb" in facts:
+        return "C01-uper-semiconstrained-lb"
+    if syntax == "cper" and status == "ENCFAIL:EBADF" and uses_alias_of(module, typename, "CHOICE"):
+        return "C01-choice-ref-no-per"
+    if syntax == "cper" and status == "ENCFAIL:EBADF" and uses_alias_of(module, typename, "ENUMERATED"):
+        return "C01-enum-ref-no-per"
+    if syntax == "cper" and status == "NEQ" and "km_nomap" in facts:
+        return "C01-uper-numericstring-range"
+    if syntax == "xer" and status == "NEQ" and "real_f15" in facts:
+        return "C01-xer-real-basic-lossy"
+    if syntax == "coer" and status == "CMP" and "wide_int" in facts:
+        return "C01-wide-integer-compare"
     return None
